@@ -1365,7 +1365,7 @@ func (broker *Broker) startRetry(wg *sync.WaitGroup) {
 			broker.info("Ignoring changed failed file:", file.GetName())
 			continue
 		}
-		if cached.GetHash() != file.GetHash() {
+		if cached.GetHash() != file.GetHash() || cached.GetSize() != file.GetSize() {
 			// Same as above except that the scan has already picked up the
 			// change: the version that failed is not the one in the cache,
 			// which is already in the send Q (or about to be hashed again)
